@@ -19,6 +19,12 @@ def _mod_def_dump_args(kwargs):
     return kwargs
 
 
+def _represent_str(dumper, data: str):
+    """Represent strings with unicode line break characters as double-quoted scalars."""
+    style = '"' if any(c in data for c in "\x85\u2028\u2029") else None
+    return dumper.represent_scalar("tag:yaml.org,2002:str", data, style=style)
+
+
 class BaseModelPlus(ParserMixin, BaseModel, metaclass=DynEncoderModelMetaclass):
     """Extended pydantic BaseModel with some good defaults.
 
@@ -73,8 +79,11 @@ class BaseModelPlus(ParserMixin, BaseModel, metaclass=DynEncoderModelMetaclass):
         # (more elegant: allow ruamel yaml to reuse defined custom JSON dumpers)
         # tmp = self.json_dict(**_mod_def_dump_args(kwargs))
         writer = YAML(typ="safe", pure=True)
+        writer.default_flow_style = False  # (block style, like the default writer)
         # no line folding (it is lossy: blanks at a line break are not preserved)
         writer.width = 2**31 - 1
+        # unicode line breaks are not preserved either, unless written as escapes
+        writer.representer.add_representer(str, _represent_str)
         return to_yaml_str(self, custom_yaml_writer=writer)
 
     @classmethod
